@@ -2,7 +2,7 @@
 From Coq Require Import Ascii String List Bool Arith ZArith NArith.
 From PTBase Require Import Exn PyStr PyNum PyVal Fmt FixedFormat.
 From Gen Require Import GenTables GenSections.
-From P Require Import Comb Obj Fields Idem Sections SectionsB Rec SecRocks SecMesh SecGener SecMisc SecParam SecHist SecSel SecShort SecMeshm T2DataIO Whole Xp Example Prog IdemSec IdemSecB IdemMeshm IdemWhole IdemEx Bin BinEx.
+From P Require Import Comb Obj Fields Idem Sections SectionsB Rec SecRocks SecMesh SecGener SecMisc SecParam SecHist SecSel SecShort SecMeshm T2DataIO Whole Xp Example Prog IdemSec IdemSecB IdemMeshm IdemWhole RbReadBack RealStable IdemEx Bin BinEx IdemMesh IdemMeshEx.
 Import ListNotations.
 Open Scope string_scope.
 
@@ -313,13 +313,69 @@ Theorem t2data_write_fixpoint : forall d ks ls,
   exists ls', write_lines D = Ok ls' /\ Forall2 lpad ls ls' /\ read_lines ls' = Ok (reread D ks) /\ write_lines (reread D ks) = Ok ls'.
 Proof. exact write_fixpoint. Qed.
 Print Assumptions t2data_write_fixpoint.
-(** all of these hypotheses as one boolean (the stability of the reals computed), and two objects that meet it *)
+(** ** the text of a real survives read + write (x-C02's float() of a printed real, b-C13's digits-survive argument,
+    tied here to Comb.strtod / Comb.cf and to the precision-lowering loop): '%w.qe' with q <= 14 decimals and a printed
+    exponent in [-300, 300]; '%w.qf' printing fewer than 15 digits; both when the re-read value is printed with q
+    decimals again, which is proved when q is the precision of the table; names; [field_ok] collects the cases *)
+Theorem real_field_text_survives : forall f ng m e q, ft f = Te -> (0 <= m)%Z -> used_prec f (XReal ng m e) = Some q -> (0 <= q <= 14)%Z ->
+  (m <> 0%Z -> (-300 <= exp10 q m e <= 300)%Z) -> used_prec f (cf f (XReal ng m e)) = Some q -> stable f (XReal ng m e).
+Proof. exact real_e_stable. Qed.
+Print Assumptions real_field_text_survives.
+Theorem real_field_table_precision_kept : forall f ng m e, ft f = Te -> (0 <= m)%Z -> used_prec f (XReal ng m e) = Some (prec f) ->
+  (0 <= prec f <= 14)%Z -> (m <> 0%Z -> (-300 <= exp10 (prec f) m e <= 300)%Z) -> used_prec f (cf f (XReal ng m e)) = Some (prec f).
+Proof. exact full_precision_kept. Qed.
+Print Assumptions real_field_table_precision_kept.
+Theorem fixed_point_field_text_survives : forall f ng m e q, ft f = Tf -> (0 <= m)%Z -> used_prec f (XReal ng m e) = Some q -> (0 <= q <= 22)%Z ->
+  (f_parts q m e < 10 ^ 15)%Z -> used_same f (XReal ng m e) q = true -> stable f (XReal ng m e).
+Proof. exact real_f_stable. Qed.
+Print Assumptions fixed_point_field_text_survives.
+Theorem name_field_text_survives : forall f s t, ft f = Ts -> fmt_field f (XStr s) = Ok t -> no_nl t = true -> stable f (XStr s).
+Proof. exact name_stable. Qed.
+Print Assumptions name_field_text_survives.
+Theorem value_conditions_give_stability : forall strict specs vals, all_field_ok strict specs vals = true -> all_stable specs vals.
+Proof. exact all_field_ok_stable. Qed.
+Print Assumptions value_conditions_give_stability.
+
+(** all of these hypotheses as one boolean, and two objects that meet it.  [idem_hyps] takes [field_ok] for every written
+    value ([field_ok_strict], or the two texts computed for the value kinds it does not cover: an integer in a real
+    field, ...); [idem_hyps_strict] takes [field_ok_strict] only: no text is computed, the conditions are on the values *)
 Theorem t2data_write_idem_checked : forall d ks, idem_hyps d ks = true ->
   exists ls ls', write_lines d = Ok ls /\ write_lines (reread d ks) = Ok ls' /\ Forall2 lpad ls ls' /\
     read_lines ls' = Ok (reread (reread d ks) ks) /\ write_lines (reread (reread d ks) ks) = Ok ls'.
 Proof. exact write_fixpoint_checked. Qed.
 Print Assumptions t2data_write_idem_checked.
+Theorem t2data_write_idem_derived : forall d ks, idem_hyps_strict d ks = true ->
+  exists ls ls', write_lines d = Ok ls /\ write_lines (reread d ks) = Ok ls' /\ Forall2 lpad ls ls' /\
+    read_lines ls' = Ok (reread (reread d ks) ks) /\ write_lines (reread (reread d ks) ks) = Ok ls'.
+Proof. exact write_fixpoint_derived. Qed.
+Print Assumptions t2data_write_idem_derived.
 Theorem t2data_write_idem_hypotheses_met :
-  idem_hyps example_tough2 example_tough2_order = true /\ idem_hyps example_autough2 example_autough2_order = true.
-Proof. exact (conj example_tough2_idem example_autough2_idem). Qed.
+  idem_hyps_strict example_tough2 example_tough2_order = true /\ idem_hyps_strict example_autough2 example_autough2_order = true.
+Proof. exact (conj example_tough2_idem_strict example_autough2_idem_strict). Qed.
 Print Assumptions t2data_write_idem_hypotheses_met.
+
+(** ** writing again what was read, grid in a separate ASCII MESH file: both files of the second write are the first
+    ones up to blanks before the newlines ([mesh_state d (reread d ks)] is what t2data_read_write_meshfile reads) *)
+Theorem t2data_write_idem_meshfile : forall d ks d' fs,
+  write_files (mk_wcfg 1 None None) d = Ok (d', fs) ->
+  update_sections d = sections d -> main_secs d = map s2l ks -> xprec d = [] ->
+  chain_ok d ks (start_state d) = true ->
+  let d2 := reread d ks in let X := mesh_state d d2 in
+  forallb (wf_block T0 (rocks d2)) (blocks d) = true -> forallb (wf_conn T0 (canon_blocks T0 (blocks d))) (conns d) = true ->
+  idem_mesh_ok d ks = true -> update_sections X = sections X ->
+  Forall (istable T0) (prog_file d ks) -> Forall (istable T0) (mesh_prog d) ->
+  exists d'' fs' m m', write_files (mk_wcfg 1 None None) X = Ok (d'', fs') /\ Forall2 lpad (f_main fs) (f_main fs') /\
+    f_mesh fs = Some m /\ f_mesh fs' = Some m' /\ Forall2 lpad m m' /\ f_pdat fs' = None.
+Proof. exact write_idem_meshfile. Qed.
+Print Assumptions t2data_write_idem_meshfile.
+Theorem t2data_write_idem_meshfile_checked : forall strict d ks, idem_mesh_hyps strict d ks = true ->
+  exists d' fs d'' fs' m m', write_files (mk_wcfg 1 None None) d = Ok (d', fs) /\
+    write_files (mk_wcfg 1 None None) (mesh_state d (reread d ks)) = Ok (d'', fs') /\ Forall2 lpad (f_main fs) (f_main fs') /\
+    f_mesh fs = Some m /\ f_mesh fs' = Some m' /\ Forall2 lpad m m' /\ f_pdat fs' = None.
+Proof. exact write_idem_meshfile_checked. Qed.
+Print Assumptions t2data_write_idem_meshfile_checked.
+Theorem t2data_write_idem_meshfile_hypotheses_met :
+  idem_mesh_hyps true (drop_short example_tough2) (no_mesh example_tough2_order) = true /\
+  idem_mesh_hyps true (drop_short example_autough2) (no_mesh example_autough2_order) = true.
+Proof. exact (conj example_tough2_mesh_idem example_autough2_mesh_idem). Qed.
+Print Assumptions t2data_write_idem_meshfile_hypotheses_met.
